@@ -1,5 +1,6 @@
 """C09 Loading translations never panics or hangs, whatever the files contain."""
 import re
+import json
 from collections import Counter, defaultdict
 
 import panics
@@ -378,6 +379,34 @@ def r1_unrenderable(ctx, prog):
         r.inst("Ranges::from_serde_seq", "a range without branches is rejected (EitherOfWrapper::new(0) unreachable)")
     else:
         r.viol("R1:from_serde_seq#empty", "a typed range without branches is accepted: code generation would reach unreachable!(\"0 locales ?\")", file="leptos_i18n_parser/src/parse_locales/ranges.rs")
+    # macro: identifiers are built from the locale names (`<NAME>_LANGID`): the names are validated as language identifiers *before* that,
+    # so that a name such as `r#en` is an InvalidLocale error and not a panic in format_ident!
+    bce = prog.body("leptos_i18n_macro::load_locales::create_locales_enum")
+    if bce is None:
+        r.missing("create_locales_enum")
+    else:
+        fam_ce = prog.family(bce)
+        val_ = [(bb_, i_) for bb_ in fam_ce for i_ in M.call_blocks(bb_, r"core::str::<impl str>::parse$") if "LanguageIdentifier" in ((bb_.blocks[i_]["term"]["func"].get("const") or {}).get("fn_full", ""))]
+        idc_ = {bb_.name for bb_ in fam_ce if bb_ is not bce and M.call_blocks(bb_, r"quote::__private::mk_ident$|proc_macro2::Ident::new$")}
+        clos_ = {bb_.name for bb_, _ in val_}
+
+        def agg_lines(names_):
+            return [st_.get("line") or 0 for _i, _j, st_ in bce.assigns() if st_["rv"]["k"] == "Aggregate" and st_["rv"].get("agg") == "Closure" and st_["rv"].get("def") in names_]
+        vl_, il_ = agg_lines(clos_), agg_lines(idc_)
+        if not vl_:
+            # the validation may sit in a private helper: then the helper's call is where it runs
+            for ci_, t_ in bce.calls():
+                hb_ = prog.bodies.get(callee_name(t_) or "")
+                if hb_ is not None and hb_.crate == "leptos_i18n_macro" and not hb_.is_pub and any(
+                        "LanguageIdentifier" in ((x_.blocks[j_]["term"]["func"].get("const") or {}).get("fn_full", "")) for x_ in prog.family(hb_) for j_ in M.call_blocks(x_, r"core::str::<impl str>::parse$")):
+                    vl_.append(t_.get("line") or 0)
+        # (source order of the two closures in the function body: the validating iterator is collected with `?` where it is written)
+        okv_ = bool(vl_) and (not il_ or min(vl_) < min(il_))
+        if okv_:
+            r.inst("create_locales_enum#names-validated-first", "locale names are parsed as language identifiers before any identifier is built from them")
+        else:
+            r.viol("R1:create_locales_enum#names-validated-first", "identifiers are built from the locale names before the names are validated as language identifiers: a name that is not one "
+                   "(`r#en`) panics in format_ident! instead of being reported as InvalidLocale", file=bce.file, line=bce.line)
     # build helper: locale names validated before use
     b3 = prog.body("leptos_i18n_build::TranslationsInfos::parse_inner")
     if b3 is None:
